@@ -47,22 +47,35 @@ def build_rule(arch, rule, objs_as_list=True):
 
 
 def run_episode(spec, uid="E"):
-    render, back = _renderer(spec.get("render", "ident"))
+    default_kind = spec.get("render", "ident")
     worlds = {0: World(spec["world"]["modules"], spec["world"]["imports"])}
     reals, events = {}, []
 
-    def real(a):
-        if a not in reals:
-            reals[a] = build_real(worlds[a], render)
-            events.append({"k": "arch", "a": f"{uid}.A{a}", "first": not events, **observe(reals[a], back)})
-        return reals[a]
+    def key(a):
+        return (a[0], a[1]) if isinstance(a, (list, tuple)) else (a, default_kind)
 
-    referenced = {(a, rid) for it in spec["items"] if it["op"] == "law" for a, rid in zip(it["as"], it["rids"])}
+    def aid(a):
+        n, kind = key(a)
+        return f"{uid}.A{n}" if kind == default_kind else f"{uid}.A{n}{kind}"
+
+    def real(a):
+        k = key(a)
+        if k not in reals:
+            render, back = _renderer(k[1])
+            reals[k] = (build_real(worlds[k[0]], render), render, back)
+            events.append({"k": "arch", "a": aid(a), "first": not events, **observe(reals[k][0], back)})
+        return reals[k]
+
+    referenced = {(key(a), rid) for it in spec["items"] if it["op"] == "law" for a, rid in zip(it["as"], it["rids"])}
+    # One LayeredArchitecture object per distinct definition and rendering is shared by all rules of the episode
+    # (what users do: define the layers once, write many rules against them) unless the spec says "share": false.
+    shared = {}
+    import json as _json
     for it in spec["items"]:
         op = it["op"]
         if op == "leval":
-            ev = real(it["a"])
-            w = worlds[it["a"]]
+            ev, render, back = real(it["a"])
+            w = worlds[key(it["a"])[0]]
             before = observe(ev, back)
             layers_logged = []
             for lay in it["layers"]:
@@ -73,10 +86,21 @@ def run_episode(spec, uid="E"):
                     listed = [list(m) for m in w.modules if re.match(pat, render(m))]
                 layers_logged.append({"name": lay["name"], "kind": lay["kind"], "listed": listed})
             out = {"out": "pass", "real": [], "miss": [], "bad": [], "raw": ""}
+            def_before = def_after = None
             try:
-                arch = define(it["layers"], render)
-                rule = build_rule(arch, it["rule"], it.get("objs_as_list", True))
-                rule.assert_applies(ev)
+                dkey = (_json.dumps(it["layers"], sort_keys=True), key(it["a"])[1])
+                if spec.get("share", True) and dkey in shared:
+                    arch = shared[dkey]
+                else:
+                    arch = shared[dkey] = define(it["layers"], render)
+                def_before = str(arch)
+                try:
+                    rule = build_rule(arch, it["rule"], it.get("objs_as_list", True))
+                    rule.assert_applies(ev)
+                finally:
+                    def_after = str(arch)
+                    if def_after != def_before:     # reported below; later rules get a fresh definition
+                        shared.pop(dkey, None)
             except AssertionError as e:
                 msg = e.args[0] if e.args and isinstance(e.args[0], str) else str(e)
                 p = parse_layer_message(msg, back)
@@ -85,15 +109,17 @@ def run_episode(spec, uid="E"):
                        "bad": p["bad"], "raw": msg[:2000]}
             except Exception as e:
                 out = {"out": "error", "real": [], "miss": [], "bad": [], "raw": f"{type(e).__name__}: {e}"[:500]}
-            events.append({"k": "leval", "a": f"{uid}.A{it['a']}", "rid": it["rid"], "layers": layers_logged,
+            events.append({"k": "leval", "a": aid(it["a"]), "rid": it["rid"], "layers": layers_logged,
                            "rule": it["rule"], **out, "same": observe(ev, back) == before,
-                           "keep": (it["a"], it["rid"]) in referenced})
+                           "def_same": def_before == def_after,
+                           "keep": (key(it["a"]), it["rid"]) in referenced})
         elif op == "addimport":
-            real(it["a"])
+            _, render, back = real(it["a"])
             e = (tuple(it["e"][0]), tuple(it["e"][1]))
-            worlds[it["a2"]] = worlds[it["a"]].with_import(e)
-            reals[it["a2"]] = build_real(worlds[it["a2"]], render)
-            events.append({"k": "arch", "a": f"{uid}.A{it['a2']}", "first": False, **observe(reals[it["a2"]], back)})
+            n2, kind2 = key(it["a2"])
+            worlds[n2] = worlds[key(it["a"])[0]].with_import(e)
+            reals[(n2, kind2)] = (build_real(worlds[n2], render), render, back)
+            events.append({"k": "arch", "a": aid(it["a2"]), "first": False, **observe(reals[(n2, kind2)][0], back)})
         elif op == "law":
-            events.append({"k": "law", "law": it["law"], "as": [f"{uid}.A{a}" for a in it["as"]], "rids": it["rids"]})
+            events.append({"k": "law", "law": it["law"], "as": [aid(a) for a in it["as"]], "rids": it["rids"]})
     return events
